@@ -17,7 +17,7 @@ EXPLANATION = (
     "run or not, and ends every reporter once. Y6: every summary format iterates STATUS_ORDER through the shared "
     "formatter; optional-status sets never hide passed/failed.")
 NOT_DECIDED = "the printed text and durations; SummaryReporterV2 (not wired in); that statuses are final (C03)"
-TECHNIQUE = "static analysis: abstract evaluation of the two summary tree walkers on a token model tree (conservation obligations), table-coverage rules against the status oracle, run_model exploration for reporter calls"
+TECHNIQUE = "static analysis: abstract evaluation of the two summary tree walkers on a token model tree (conservation obligations), table-coverage rules against the status oracle, run_model exploration for reporter calls; static constant propagation of the string-level glue (the source interpreted on enumerated literal inputs, stdlib calls folded) against oracles written in the rule"
 
 
 def t_walk(chk, ix):
